@@ -642,6 +642,21 @@ let exec (s : t) (verbose : bool) (f : string array) (obs : string option) : str
      | _ -> "none")
   | "straylock" -> ""
   | "linkdir" -> ""
+  | "linkfile" -> ""
+  | "zerotail" ->
+    (* the tail of the newest data file zeroed from a record boundary on: the records behind the cut are gone, the
+       file keeps its length and ends in bytes that are no record (the model of a torn tail) *)
+    (match obs with
+     | Some o when String.length o >= 2 && String.sub o 0 2 = "ok" ->
+       let cut = n_of_string (List.nth (String.split_on_char ' ' (obs_head o)) 1) in
+       (match List.rev s.disk.k_data with
+        | (id, f) :: rest ->
+          let g = lf_crash f cut in
+          let g = { g with lf_size = f.lf_size; lf_phys = f.lf_phys; lf_torn = true } in
+          s.disk <- { s.disk with k_data = List.rev ((id, g) :: rest) };
+          obs_head o
+        | [] -> obs_head o)
+     | _ -> "skip")
   | "putfail" ->
     (* a Put whose write the operating system refused: it reports the error and nothing changed (the harness
        injects the fault only when no rotation precedes the write; otherwise the operation is skipped) *)
